@@ -964,6 +964,8 @@ class Engine(Executor):
                     box.version = getattr(box, "version", 0) + 1
         env2["result"] = res
         for en in c.ensures:
+            if fi.is_generator and any(isinstance(n_, ast.Name) and n_.id == "out" for n_ in ast.walk(ast.parse(en, mode="eval"))):
+                continue          # a clause over the whole sequence of yields: the consuming loop sees one abstract element at a time
             nxt = []
             for st in states:
                 for (s2, b) in self.eval_clause(en, st, env2, node):
